@@ -235,9 +235,16 @@ class Scripted:
         self.replies = []
         self.applied = 0
         self.horizon = MAX_REQUESTS
+        self.malformed = None
 
     def __call__(self, data, idx=None):
-        req = drivers.open_request(self.cfg, data, strict=False, check_mac=False)
+        try:
+            req = drivers.open_request(self.cfg, data, strict=False, check_mac=False)
+            if not req.oids:
+                raise ValueError("no OID")
+        except Exception as e:  # noqa: BLE001 - the subject sent something no agent can answer
+            self.malformed = "%s: %s" % (type(e).__name__, str(e)[:80])
+            return []
         step = len(self.requests)
         self.requests.append(req.oids[0])
         if getattr(self, "drop_at", None) == step:
@@ -330,15 +337,23 @@ def run_block(case, res):
         if errs:
             res["machinery"].append("agent errors %s" % errs[:2])
         if o.kind != "ok":
+            if isinstance(o.exc, TooManyViolations):
+                raise o.exc
             res["machinery"].append("async driver failed %r" % (o.brief(),))
 
 
 def spurious(sc, out):
     """A time-out although the scripted agent answered every request it saw: repeated once before it is judged."""
-    return out.kind == "exc" and isinstance(out.exc, TimeoutError) and len(sc.requests) <= MAX_REQUESTS and "too many items" not in str(out.exc)
+    return out.kind == "exc" and isinstance(out.exc, TimeoutError) and len(sc.requests) <= MAX_REQUESTS and "too many items" not in str(out.exc) and not sc.malformed
+
+
+class TooManyViolations(Exception):
+    pass
 
 
 def evaluate(res, case, cfg, devs, sc, got, out):
+    if res["counters"].get("violating_walks", 0) > 10:
+        raise TooManyViolations()
     res.count("walks")
     res.count("requests", len(sc.requests))
     if sc.applied:
@@ -351,6 +366,12 @@ def evaluate(res, case, cfg, devs, sc, got, out):
         else:
             bad_item = x
     end = end_kind(out)
+    if sc.malformed:
+        res.count("violating_walks")
+        small = dict(case)
+        small["strategies"] = [devs]
+        res.violation("%s/%s/%s: request no agent can decode" % (case["driver"], cfg.version, case["method"]), "deviations %s: after %d requests the walk sent a datagram the agent could not decode (%s) and ended with %s" % (devs, len(sc.requests), sc.malformed, end), small)
+        return
     if end == "runaway" and len(sc.requests) <= MAX_REQUESTS and not (out.exc is not None and "too many items" in str(out.exc)):
         # a time-out although the scripted agent answered every request: the host stalled, not the walk
         res["machinery"].append("spurious time-out after %d requests (host overloaded?) for deviations %s" % (len(sc.requests), devs))
@@ -358,6 +379,7 @@ def evaluate(res, case, cfg, devs, sc, got, out):
     res.outcome(end.split(":")[0])
     prob = "yielded a non-pair item %r" % (bad_item,) if bad_item is not None else judge_transcript(case["method"], sc.requests, sc.replies, yielded, end)
     if prob:
+        res.count("violating_walks")
         small = dict(case)
         small["strategies"] = [devs]
         res.violation(
@@ -406,6 +428,7 @@ def run_loss(case, res):
         elif timeouts > 1:
             prob = "%d time-outs for one lost reply" % timeouts
         if prob:
+            res.count("violating_walks", 9)
             small = dict(case)
             small["lost"] = [k]
             res.violation("%s/lost-reply-%s: %s" % (case["driver"], method, _cls(prob)), "reply to request #%d lost, iterator asked again after the TimeoutError: %s" % (k, prob), small)
@@ -455,6 +478,8 @@ def run_loss(case, res):
         if errs:
             res["machinery"].append("agent errors %s" % errs[:2])
         if o.kind != "ok":
+            if isinstance(o.exc, TooManyViolations):
+                raise o.exc
             res["machinery"].append("async driver failed %r" % (o.brief(),))
 
 
@@ -479,6 +504,8 @@ def run_interleave(case, res):
     base = rb.oid_str(BASE)
     want = [(rb.oid_str(o), i + 2) for i, o in enumerate((A, B, C, LONG))]
 
+    bad = [0]
+
     def mk(s):
         return s.getnext(base) if method == "getnext" else s.getbulk(base, max_rep)
 
@@ -498,6 +525,7 @@ def run_interleave(case, res):
             prob = "a fresh walk after the abandoned ones yielded %r, the agent holds %r" % (final, want)
         res.outcome("interleaved")
         if prob:
+            bad[0] += 1
             small = dict(case)
             small["seqs"] = [seq]
             res.violation(
@@ -505,6 +533,8 @@ def run_interleave(case, res):
                 "next() order %s (then both abandoned): %s" % (seq, prob),
                 small,
             )
+            if bad[0] >= 6:
+                raise TooManyViolations()
 
     def norm(x):
         return (x[0], x[1]) if isinstance(x, tuple) and len(x) == 2 else x
@@ -574,6 +604,8 @@ def run_interleave(case, res):
         if errs:
             res["machinery"].append("agent errors %s" % errs[:2])
         if o.kind != "ok":
+            if isinstance(o.exc, TooManyViolations):
+                raise o.exc
             res["machinery"].append("async driver failed %r" % (o.brief(),))
 
 
@@ -586,12 +618,15 @@ def _cls(t):
 def work(chunk):
     res = common.Result()
     for case in chunk:
-        if "seqs" in case:
-            run_interleave(case, res)
-        elif "lost" in case:
-            run_loss(case, res)
-        else:
-            run_block(case, res)
+        try:
+            if "seqs" in case:
+                run_interleave(case, res)
+            elif "lost" in case:
+                run_loss(case, res)
+            else:
+                run_block(case, res)
+        except TooManyViolations:
+            res["caps"].append("a block of strategies was abandoned after 10 violating walks")
         res.count("cases")
     return res
 
